@@ -415,6 +415,7 @@ class Eff(object):
         self.fn = fn              # function in which the construct stands
         self.stack = stack        # inlining chain (function names, outermost first)
         self.loops = loops        # enclosing loop iterables (text)
+        self.withs = ()           # enclosing `with` context expressions (text)
         self.seq = seq
         self.vnode = vnode
         self.args = args or []    # texts of call arguments
@@ -447,12 +448,12 @@ def _unparse(n):
 
 class Summary(object):
     """gated effect summary of one function (helpers inlined)"""
-    def __init__(self, py, modname, qual, opaque=(), depth=4, inline_module_funcs=False, assume=None, inline_only=None):
+    def __init__(self, py, modname, qual, opaque=(), depth=4, inline_module_funcs=False, assume=None, inline_only=None, func=None):
         self.py = py
         self.modname = modname
         self.mod = py.mod(modname)
         self.qual = qual
-        self.func = py.func(modname, qual)
+        self.func = func if func is not None else py.func(modname, qual)
         self.cname = qual.split('.')[0] if '.' in qual else None
         self.methods = py.methods(modname, self.cname) if self.cname else {}
         self.opaque = set(opaque)
@@ -460,6 +461,7 @@ class Summary(object):
         self.depth = depth
         self.inline_module_funcs = inline_module_funcs
         self.effects = []
+        self.withs = []
         self._ctl_kinds = []
         self.carried = []
         self.tmp = 0
@@ -490,6 +492,7 @@ class Summary(object):
         if cond is False:
             return None
         e = Eff(kind, target, value, cond, node, fr.func.name, fr.stack, tuple(self.loops), len(self.effects), vnode, args)
+        e.withs = tuple(self.withs)
         self.effects.append(e)
         return e
 
@@ -993,17 +996,31 @@ class Summary(object):
         if isinstance(st, (ast.For, ast.AsyncFor, ast.While)):
             return self.loop(st, env, pc, fr)
         if isinstance(st, (ast.With, ast.AsyncWith)):
+            n_w = 0
             for it in st.items:
                 v = self.prep(it.context_expr, env, pc, fr)
                 self.record_calls(v, env, pc, fr)
                 if it.optional_vars is not None:
                     self.assign(it.optional_vars, v, env, pc, fr, st)
-            return self.block(st.body, env, pc, fr)
+                self.withs.append(' | '.join(t for g, t in self.text_alts(v, env, pc)))
+                n_w += 1
+            out = self.block(st.body, env, pc, fr)
+            del self.withs[len(self.withs) - n_w:]
+            return out
         if isinstance(st, ast.Try):
             mark = self.mark(fr)
+            r0, e0, x0 = len(fr.returns), len(self.effects), len(fr.exits)
             out = self.block(st.body, env, pc, fr)
-            for h in st.handlers:
-                ex = atom('@except:%s' % (P.src(h.type) if h.type is not None else ''))
+            hat = [atom('@except:%s' % (P.src(h.type) if h.type is not None else '')) for h in st.handlers]
+            if hat:
+                # a `return <expr>` inside the try body only happens when evaluating it did not raise
+                noexc = conj(*[neg(a) for a in hat])
+                fr.returns[r0:] = [(conj(g, noexc), n) for g, n in fr.returns[r0:]]
+                fr.exits[x0:] = [(conj(g, noexc) if k == 'return' else g, k) for g, k in fr.exits[x0:]]
+                for e in self.effects[e0:]:
+                    if e.kind == 'return':
+                        e.cond = conj(e.cond, noexc)
+            for h, ex in zip(st.handlers, hat):
                 self.block(h.body, env, conj(pc, ex), fr)
             if st.orelse and out is not False:
                 self.block(st.orelse, env, out, fr)
